@@ -192,11 +192,20 @@ def decomp (c : Case) : Verdict :=
     if decl ≥ 4194304 ∧ o.getD "allocge" "0" = "1" ∧ res ≠ "unadvertised" ∧ res ≠ "unsupported" then
       .propFail tag s!"alloc-from-declared-length decl={decl} limit={maxHandshakeCert}"
     else
+    -- exact per-function measurement: with the declared length within the limit the buffer is ≤ 256 KiB + 4 and at
+    -- most declared + 1 bytes are pulled from the decoder (`decompress_reads_bounded`); what remains is the decoder's
+    -- own state (measured ≤ 4.5 MiB for brotli, zlib and zstd on 8-64 MiB bombs). 8 MiB or more means the stream,
+    -- not the limit, drives the allocation.
+    if decl ≤ maxHandshakeCert ∧ o.getD "alloc8" "0" = "1" then
+      .propFail tag s!"alloc-driven-by-decompressed-stream (≥ 8 MiB allocated in decompressCert, declared {decl}, stream {plain})"
+    else
     let m : CompCert := ⟨alg, decl, []⟩
     -- decoder-independent cases: an intact stream of the 479-byte certificate message (the model only needs
     -- its length; `certOk` = "the whole certificate message is there")
-    let exact := content = "cert" ∧ body = "good"
-    let (mres, malloc) := decompress adv m (some (List.replicate plain 0)) (fun out => out.length == plain)
+    let exact := (content = "cert" ∨ content = "bomb") ∧ body = "good"
+    -- (the model only needs the stream's length: cap the replica, verdicts depend on comparisons with decl ≤ 2^24)
+    let (mres, malloc) := decompress adv m (some (List.replicate (min plain 17000000) 0))
+      (fun out => content = "cert" && out.length == plain)
     let rstr : DecompRes → String
       | .unadvertised => "unadvertised" | .tooLarge => "toolarge" | .unsupported => "unsupported"
       | .decoderErr => "decoder" | .lenMismatch => "lenmismatch" | .lenExceeds => "lenexceeds"
@@ -552,5 +561,37 @@ def c34full (c : Case) : Verdict :=
     | _, _ => .bad "c34_full: bad n"
   else if client = "ok" then cmp s!"{tag0},no-clientEE" hs "ok"
   else .ok s!"{tag0},client-aborted"
+
+/-- `c34_hrr2`: scripted two-hello flows. -/
+def c34hrr2 (c : Case) : Verdict :=
+  let i := c.input
+  let o := c.output
+  let ech1 := i.getD "ech1" "?"
+  let ech2 := i.getD "ech2" "?"
+  let tag0 := s!"{ech1},{ech2}"
+  match runtimeFail c tag0 with
+  | some v => v
+  | none =>
+  match allocFail c tag0 with
+  | some v => v
+  | none =>
+  if o.getD "hrr" "0" ≠ "1" then .ok s!"{tag0},no-hrr" else
+  let extOf (s : String) : Option Bytes := if s = "-" ∨ s = "empty" then some [] else unhex s
+  match extOf (o.getD "h1ech" "-"), extOf (o.getD "h2ech" "-") with
+  | some e1, some e2 =>
+    let keys := i.getD "keys" "0" = "1"
+    let dec := o.getD "dec" "0" = "1"
+    let firstAlert := (listOf (o.getD "alert" "-")).headD "-"
+    let second (ctx : Option EchCtx) (ctxTag : String) : Verdict :=
+      match echSecondHello ctx e2 with
+      | .panic => .diff s!"{tag0},{ctxTag}" "model-panic"
+      | .abort a => cmp s!"{tag0},{ctxTag},abort{a}" firstAlert (toString a)
+      | .decrypt _ => cmp s!"{tag0},{ctxTag},decrypt-fails" firstAlert "51"   -- the script cannot seal a payload
+      | .proceed => .ok s!"{tag0},{ctxTag},proceed,{o.getD "hs" "?"}"
+    match echFirstHello keys dec true e1 with
+    | .abort _ => .diff tag0 "first hello refused (no HelloRetryRequest expected)"
+    | .noCtx => second none "noctx"
+    | .ctx cx => second (some cx) (if cx.inner then "ctx-inner" else "ctx-hpke")
+  | _, _ => .bad "c34_hrr2: bad hex"
 
 end HostileDrv
